@@ -4,6 +4,7 @@
 #   codec.pdu.fresh.dec / codec.pdu.fresh.enc              (the same on a newly created object)
 # answers: ok VALUE consumed | ok hex | err <exception class> | err HANG (no answer within the CPU-time limit)
 # argv: <toolkit dir>
+from excname import exc_name
 import os, signal, sys
 sys.path.insert(0, sys.argv[1])
 sys.path.insert(0, os.path.dirname(os.path.dirname(os.path.dirname(os.path.abspath(__file__)))))
@@ -133,5 +134,5 @@ for line in sys.stdin:
     except MemoryError:
         print("err HANG")
     except Exception as e:
-        print("err %s" % type(e).__name__)
+        print("err %s" % exc_name(e, ("DecodeError", "EncodeError", "ProtocolError")))
     sys.stdout.flush()
